@@ -1,7 +1,7 @@
 package main
 
 func init() {
-	for _, id := range []string{"C04", "C05", "C06", "C07", "C09", "C10", "C11", "C14", "C15", "C16", "C19", "C20"} {
+	for _, id := range []string{"C04", "C06", "C07", "C09", "C10", "C11", "C14", "C15", "C16", "C19", "C20"} {
 		notApplicable[id] = "not yet claimed: contracts for this property are still being written (see DESIGN.md); no check is registered"
 	}
 	notApplicable["C12"] = "command/response matching lives in goroutine, channel and timer interplay (onActiveEvent/onActiveRespondEvent/write); no sequential function contract within the verifier's subset carries the claim"
@@ -79,5 +79,16 @@ func init() {
 		Decided: "escape: 0x7e occurs only as first and last byte, every input byte is placed (plain or as its pair) at the index given by the counting function, length; " +
 			"unescape: inverse content clause; property-word bit layout of encode/decode; Header.Encode lays out id, property word, version byte, phone, serial, body, XOR and escapes",
 		Undecided: []string{"the composition unescape(escape(d)) = d links the two counting functions by an induction over both arrays; see DESIGN.md for its status"},
+	})
+}
+
+func init() {
+	registerProp(&PropDef{
+		ID:    "C05",
+		Title: "Sub-package reassembly delivers exactly the original message",
+		Roots: []string{"service.(*packageParse).completePack", "service.(*packageParse).add", "service.(*packageParse).remove"},
+		Decided: "per call of completePack: no panic for any package number/total (including 0 and numbers beyond the announced total), the table's representation invariant " +
+			"is preserved, an out-of-range packet leaves the table untouched, a message is reported complete only when every slot of the record is non-empty",
+		Undecided: []string{"arrival orders, duplicates and interleavings over several calls (whole-history statement)", "delivery through connection.write and the handlers (goroutines)"},
 	})
 }
